@@ -70,6 +70,9 @@ def gen_doc(rng, hostile_values=0.15, comments=False):
         dtype = rng.choice(DTYPES)
         n = rng.choice([0, 1, 1, 2, 3, 4])
         vals = [{"text": vtext(dtype)} for _ in range(n)]
+        for v in vals:
+            if rng.random() < 0.1:
+                v["text"] = rng.choice(["", "  "])       # a value element that only carries attributes
         place = rng.choice(["first", "later", "all", "none"])
         conflict = rng.random() < 0.12
         type_tag = rng.choice(["type", "type", "dtype"])
@@ -145,6 +148,20 @@ def gen_doc(rng, hostile_values=0.15, comments=False):
         d["unsupported"].append((rng.choice(v1map.UNSUPPORTED_DOC), "gone"))
     for n in names(rng.choice([1, 2, 3]), ["sec", "top"]):
         d["sections"].append(sec(n, rng.choice([0, 1, 2])))
+    if rng.random() < 0.15:
+        # twin branches: the same sub-tree (equally named parents with equally named children) below two different tops
+        import copy
+        twin = copy.deepcopy(rng.choice(d["sections"]))
+        twin["name"] = "twin" + str(rng.randrange(4))
+
+        def strip_ids(x):
+            x["id"] = None
+            for p in x.get("properties", []):
+                p["id"] = None
+            for c in x.get("sections", []):
+                strip_ids(c)
+        strip_ids(twin)
+        d["sections"].append(twin)
     return d
 
 
